@@ -57,6 +57,23 @@ CHECKS: dict[str, dict] = {
     },
 }
 
+CHECKS.update({
+    "C19": {
+        "engine": "SHAPE", "category": "exploration",
+        "technique": "bounded-exhaustive enumeration of index tuples x mass configurations x Dalitz lattice against a four-momentum reference geometry",
+        "text": "all 64 zeta triples, all theta-hat / theta_ij pairs, 16 mass configurations (every special role given to every child), interior grid plus geometric boundary approaches; library expressions (doit+lambdify, mpmath where doubles are ill-conditioned) compared with angles computed from explicitly constructed events and with the identities of the statement (81 chain-rule instances)",
+        "note": "real numbers off the lattice are not covered; one global orientation sign per angle family is read from the first point (the statement does not fix the orientation)",
+        "design": "3/C19",
+    },
+    "C20": {
+        "engine": "SHAPE", "category": "exploration",
+        "technique": "bounded-exhaustive enumeration of mass configurations x bounding-box grid x outside values against PDG Dalitz limits; exact-rational grid decides the Kallen identities",
+        "text": "events from an independent momentum-triangle construction, 25x25 (120x120) bounding-box grid plus points hugging the PDG boundary from both sides, five outside values, both call paths; Kallen symmetry and factorisation on a 6^3 exact-rational grid that decides the degree-(2,2,2) polynomial identity",
+        "note": "points closer to the boundary than the rounding band are not judged (<= vs < is not a violation); crossed-channel regions out of scope as in the statement",
+        "design": "3/C20",
+    },
+})
+
 NOT_YET = "check not implemented yet at this commit (planned, see DESIGN.md section 7)"
 
 
